@@ -36,6 +36,8 @@
 #include <nano/tuner/surrogate.h>
 #include <nano/verif.h>
 #include <set>
+#include <nano/tensor/tensor.h>
+#include <function/benchmark/linear.h>
 
 using namespace nano;
 
@@ -1041,6 +1043,483 @@ void probes()
             }
     }
 }
+
+// ---------------------------------------------------------------------------------------------------------------------
+// F. extension stage (C06_Convex2): model-tie lines + direct oracles for the clauses proved in coq/theories/C06_Convex2.v
+//    lines:  QF n | a | B | Aobs | x = f | g            fn:quadratic, a / B re-drawn as the constructor draws them, Aobs read off the gradient
+//            CQ kind n | P | q | r | x = f | g          quadratic constraint (P symmetric psd / indefinite / non-symmetric)
+//            KK n | K | offset | x = f | g              fn:kinks (K re-drawn as the constructor draws it)
+//            GE n | a | A | x = f | g                   fn:geometric-optimization (interval lemmas)
+//            EN loss a1 a2 n | inputs | targets | bias | x = f | g     elastic-net objectives (synthetic data re-drawn)
+//            LM loss l1 l2 isize tsize | inputs | targets | x = f | g  linear::function_t
+//            GB loss tsize | targets | x = f | g        gboost bias;   GS loss tsize groups | grp | so | wo | targets | x = f | g   gboost scale
+//            FN trid|rotated-ellipsoid|maxq|maxhilb n | x = f | g       more points, aimed at exact ties
+//    FAIL clauses: expansion (exact second-order remainder), active-piece (tie rule), classnll-softmax (gradient / value formula)
+// ---------------------------------------------------------------------------------------------------------------------
+std::string fm(const matrix_t& M)
+{
+    std::string s;
+    for (tensor_size_t i = 0; i < M.rows(); ++i)
+    {
+        if (i) s += ";";
+        vec row(static_cast<size_t>(M.cols()));
+        for (tensor_size_t j = 0; j < M.cols(); ++j) row[static_cast<size_t>(j)] = M(i, j);
+        s += fl(row);
+    }
+    return s;
+}
+std::string frows(const std::vector<vec>& rows)
+{
+    std::string s;
+    for (size_t i = 0; i < rows.size(); ++i) s += (i ? ";" : "") + fl(rows[i]);
+    return s;
+}
+vec dyadic_point(vh::rng_t& rng, int n, double radius, double grid)
+{
+    vec x(static_cast<size_t>(n));
+    for (auto& v : x) v = std::round(radius * (2.0 * rng.unit() - 1.0) / grid) * grid;
+    return x;
+}
+// f(z) - f(x) - g(x).(z-x) must equal `rem` (exact second-order expansion): tolerance = rounding of the terms
+void check_expansion(const obj_t& o, const vec& x, const vec& z, double rem, const std::string& what)
+{
+    vec        g(x.size());
+    const auto fx = o.eval(x, &g), fz = o.eval(z, nullptr);
+    g_evals += 2;
+    double lin = 0, alin = 0;
+    for (size_t i = 0; i < x.size(); ++i)
+    {
+        lin += g[i] * (z[i] - x[i]);
+        alin += std::fabs(g[i] * (z[i] - x[i]));
+    }
+    const auto lhs = fz - fx - lin;
+    const auto tol = 512 * EPS * (mag(o, x, fx, g) + std::fabs(fz) + alin + std::fabs(rem)) * (1.0 + static_cast<double>(x.size()));
+    if (!(std::fabs(lhs - rem) <= tol))
+        fail("expansion", o.name, o.family,
+             what + ": f(z)-f(x)-g.(z-x)=" + vh::hexf(lhs) + " remainder=" + vh::hexf(rem) + " tol=" + vh::hexf(tol) + " x=[" + fl(x) + "] z=[" + fl(z) + "] g=[" + fl(g) + "]");
+}
+void tie_check(const obj_t& o, const vec& x, size_t want_idx, const std::string& what)
+{
+    // on an exact tie the returned vector must be the gradient of the FIRST largest piece and a sub-gradient: f(x +- e_k) >= f(x) +- g_k
+    vec        g(x.size());
+    const auto fx = o.eval(x, &g);
+    for (size_t k = 0; k < x.size(); ++k)
+        for (int sgn = -1; sgn <= 1; sgn += 2)
+        {
+            vec z = x;
+            z[k] += sgn;
+            const auto fz = o.eval(z, nullptr);
+            if (!(fz >= fx + sgn * g[k] - 1e-9 * (1.0 + std::fabs(fz))))
+                fail("active-piece", o.name, o.family, what + ": not a sub-gradient on the tie x=[" + fl(x) + "] z=[" + fl(z) + "] g=[" + fl(g) + "] fx=" + vh::hexf(fx) + " fz=" + vh::hexf(fz));
+        }
+    if (want_idx < x.size())
+        for (size_t k = 0; k < x.size(); ++k)
+            if ((k == want_idx) != (g[k] != 0.0))
+            {
+                fail("active-piece", o.name, o.family, what + ": expected the gradient of piece " + std::to_string(want_idx) + " x=[" + fl(x) + "] g=[" + fl(g) + "]");
+                break;
+            }
+    g_evals += 1 + 2 * static_cast<long>(x.size());
+}
+
+void ext_functions(vh::rng_t& rng)
+{
+    const std::vector<tensor_size_t> dims = g_thorough ? std::vector<tensor_size_t>{1, 2, 3, 4, 5, 6, 7, 8} : std::vector<tensor_size_t>{1, 2, 3, 5};
+    const int reps = g_thorough ? 8 : 3;
+    for (const auto d : dims)
+    {
+        const auto n = static_cast<int>(d);
+        // ---- trid, rotated ellipsoid: exact expansion with the remainder of the theorem ----
+        for (const char* id : {"trid", "rotated-ellipsoid"})
+        {
+            const auto f = function_t::all().get(id)->make(d, 1);
+            auto       o = wrap_function(*f, std::string("fn:") + id, std::string("fn:") + id + "[" + std::to_string(d) + "D]", true);
+            for (int r = 0; r < 4 * reps; ++r)
+            {
+                const auto x = (r % 2) ? dyadic_point(rng, n, 8.0, 0.25) : draw_point(rng, o, 10.0, nullptr);
+                const auto z = (r % 2) ? dyadic_point(rng, n, 8.0, 0.25) : draw_point(rng, o, (r % 4 == 0) ? 1e-2 : 10.0, &x);
+                double     rem = 0;
+                if (std::string(id) == "trid")
+                {
+                    for (int i = 0; i < n; ++i) rem += (z[i] - x[i]) * (z[i] - x[i]);
+                    for (int i = 0; i + 1 < n; ++i) rem -= (z[i] - x[i]) * (z[i + 1] - x[i + 1]);
+                }
+                else
+                {
+                    double p = 0;
+                    for (int i = 0; i < n; ++i)
+                    {
+                        p += z[i] - x[i];
+                        rem += p * p;
+                    }
+                }
+                check_expansion(o, x, z, rem, std::string(id) + " remainder");
+                if (r < reps)
+                {
+                    vec        g(x.size());
+                    const auto fx = o.eval(x, &g);
+                    out(std::string("FN ") + id + " " + std::to_string(n) + " | " + fl(x) + " = " + vh::hexf(fx) + " | " + fl(g));
+                }
+            }
+        }
+        // ---- maxq: exact ties |x_i| = |x_j| (dyadic): first maximiser ----
+        {
+            const auto f = function_t::all().get("maxq")->make(d, 1);
+            auto       o = wrap_function(*f, "fn:maxq", "fn:maxq[" + std::to_string(d) + "D]", true);
+            for (int r = 0; r < 4 * reps; ++r)
+            {
+                auto       x  = dyadic_point(rng, n, 4.0, 0.5);
+                double     mx = 0;
+                for (auto v : x) mx = std::max(mx, std::fabs(v));
+                // make a tie: another coordinate takes +-max
+                const auto j = static_cast<size_t>(rng.range(0, n - 1));
+                x[j]         = (rng.range(0, 1) ? 1.0 : -1.0) * mx;
+                size_t first = 0;
+                for (size_t i = 0; i < x.size(); ++i)
+                    if (std::fabs(x[i]) == mx)
+                    {
+                        first = i;
+                        break;
+                    }
+                tie_check(o, x, mx > 0 ? first : x.size(), "maxq");
+                vec        g(x.size());
+                const auto fx = o.eval(x, &g);
+                if (r < 2 * reps) out("FN maxq " + std::to_string(n) + " | " + fl(x) + " = " + vh::hexf(fx) + " | " + fl(g));
+            }
+        }
+        // ---- maxhilb: small dyadics, x = 0, sign flips ----
+        {
+            const auto f = function_t::all().get("maxhilb")->make(d, 1);
+            auto       o = wrap_function(*f, "fn:maxhilb", "fn:maxhilb[" + std::to_string(d) + "D]", true);
+            for (int r = 0; r < 3 * reps; ++r)
+            {
+                auto x = (r == 0) ? vec(static_cast<size_t>(n), 0.0) : dyadic_point(rng, n, 4.0, (r % 2) ? 0.5 : 0.0625);
+                if (r == 1) x = vec(static_cast<size_t>(n), -1.0);
+                for (auto& v : x) v += 0.0; // no negative zeros: sign(-0.0) of the source is -1, any sign is a sub-gradient there
+                tie_check(o, x, x.size(), "maxhilb");
+                vec        g(x.size());
+                const auto fx = o.eval(x, &g);
+                out("FN maxhilb " + std::to_string(n) + " | " + fl(x) + " = " + vh::hexf(fx) + " | " + fl(g));
+            }
+        }
+        // ---- fn:quadratic: a, B as the constructor draws them; A observed through the gradient ----
+        {
+            const auto f = function_t::all().get("quadratic")->make(d, 1);
+            auto       o = wrap_function(*f, "fn:quadratic", "fn:quadratic[" + std::to_string(d) + "D]", true);
+            const auto a = make_random_vector<scalar_t>(d, -1.0, +1.0, seed_t{42});
+            const auto B = make_random_matrix<scalar_t>(d, d, -1.0, +1.0, seed_t{42});
+            vec        zero(static_cast<size_t>(n), 0.0), g0(zero.size());
+            o.eval(zero, &g0);
+            matrix_t Aobs(d, d);
+            for (int j = 0; j < n; ++j)
+            {
+                vec e = zero, gj(zero.size());
+                e[static_cast<size_t>(j)] = 1.0;
+                o.eval(e, &gj);
+                for (int i = 0; i < n; ++i) Aobs(i, j) = gj[static_cast<size_t>(i)] - g0[static_cast<size_t>(i)];
+            }
+            for (int r = 0; r < 2 * reps; ++r)
+            {
+                const auto x = (r % 2) ? dyadic_point(rng, n, 4.0, 0.25) : draw_point(rng, o, 10.0, nullptr);
+                const auto z = (r % 2) ? dyadic_point(rng, n, 4.0, 0.25) : draw_point(rng, o, 10.0, nullptr);
+                double     rem = 0;
+                for (int i = 0; i < n; ++i)
+                    for (int j = 0; j < n; ++j) rem += 0.5 * (z[i] - x[i]) * Aobs(i, j) * (z[j] - x[j]);
+                check_expansion(o, x, z, rem, "1/2 d'Ad with A read off the gradient");
+                vec        g(x.size());
+                const auto fx = o.eval(x, &g);
+                if (r < reps)
+                    out("QF " + std::to_string(n) + " | " + fl(tovec(a)) + " | " + fm(B) + " | " + fm(Aobs) + " | " + fl(x) + " = " + vh::hexf(fx) + " | " + fl(g));
+            }
+        }
+        // ---- fn:kinks ----
+        {
+            const auto f    = function_t::all().get("kinks")->make(d, 1);
+            auto       o    = wrap_function(*f, "fn:kinks", "fn:kinks[" + std::to_string(d) + "D]", true);
+            const auto rows = std::max(tensor_size_t(1), static_cast<tensor_size_t>(std::sqrt(d)));
+            const auto K    = make_random_matrix<scalar_t>(rows, d, -1.0, +1.0, seed_t{42U});
+            double     off  = 0; // sum over the columns of the distances to the column median (lower median of an even count: see below)
+            for (tensor_size_t j = 0; j < d; ++j)
+            {
+                vec col(static_cast<size_t>(rows));
+                for (tensor_size_t i = 0; i < rows; ++i) col[static_cast<size_t>(i)] = K(i, j);
+                std::sort(col.begin(), col.end());
+                const auto med = (col.size() % 2) ? col[col.size() / 2] : 0.5 * (col[col.size() / 2 - 1] + col[col.size() / 2]);
+                for (auto v : col) off += std::fabs(v - med);
+            }
+            for (int r = 0; r < reps; ++r)
+            {
+                auto x = draw_point(rng, o, 2.0, nullptr);
+                if (r % 2) // exactly on kinks
+                    for (int j = 0; j < n; ++j) x[static_cast<size_t>(j)] = K(rng.range(0, rows - 1), j);
+                vec        g(x.size());
+                const auto fx = o.eval(x, &g);
+                out("KK " + std::to_string(n) + " | " + fm(K) + " | " + vh::hexf(off) + " | " + fl(x) + " = " + vh::hexf(fx) + " | " + fl(g));
+            }
+        }
+        // ---- fn:geometric-optimization ----
+        if (d <= 4)
+        {
+            const tensor_size_t summands = 3;
+            const auto f = function_t::all().get("geometric-optimization")->make(d, summands);
+            auto       o = wrap_function(*f, "fn:geometric-optimization", "fn:geometric-optimization[" + std::to_string(d) + "D,3]", true);
+            const auto a = make_random_vector<scalar_t>(summands, -1.0, +1.0, seed_t{42});
+            const auto A = make_random_matrix<scalar_t>(summands, d, -1.0 / static_cast<scalar_t>(d), +1.0 / static_cast<scalar_t>(d), seed_t{42});
+            for (int r = 0; r < reps; ++r)
+            {
+                const auto x = (r % 2) ? dyadic_point(rng, n, 4.0, 0.25) : draw_point(rng, o, 4.0, nullptr);
+                vec        g(x.size());
+                const auto fx = o.eval(x, &g);
+                out("GE " + std::to_string(n) + " | " + fl(tovec(a)) + " | " + fm(A) + " | " + fl(x) + " = " + vh::hexf(fx) + " | " + fl(g));
+            }
+        }
+    }
+}
+
+void ext_constraints(vh::rng_t& rng)
+{
+    for (int rep = 0; rep < (g_thorough ? 40 : 12); ++rep)
+    {
+        const auto n     = static_cast<tensor_size_t>(rng.range(1, 5));
+        const auto rnd   = [&]() { return std::round((4.0 * rng.unit() - 2.0) * 8.0) / 8.0; };
+        matrix_t   P(n, n), B(n, n);
+        vector_t   q(n);
+        for (tensor_size_t i = 0; i < n * n; ++i) B(i) = rnd();
+        for (tensor_size_t i = 0; i < n; ++i) q(i) = rnd();
+        const auto mode = rep % 4; // psd, indefinite, non-symmetric, non-symmetric with a small skew part
+        P.matrix() = B.matrix() * B.matrix().transpose();
+        if (mode == 1)
+            for (tensor_size_t i = 0; i < n; ++i) P(i, i) -= 2.0;
+        if (mode >= 2)
+            for (tensor_size_t i = 0; i < n; ++i)
+                for (tensor_size_t j = 0; j < n; ++j) P(i, j) = (j < i) ? 0.0 : (i == j ? 0.25 + std::fabs(B(i, j)) : (mode == 2 ? 4.0 : 0.125) * B(i, j));
+        const auto r = rnd();
+        const bool eq = rep % 2 == 0;
+        const constraint_t c = eq ? constraint_t{constraint::quadratic_equality_t{{P, q, r}}} : constraint_t{constraint::quadratic_inequality_t{{P, q, r}}};
+        obj_t o;
+        o.family = std::string("cons:quadratic-") + (eq ? "eq" : "ineq") + "(ext)";
+        o.name   = o.family + "(" + fm(P) + ";" + fl(tovec(q)) + ";" + vh::hexf(r) + ")";
+        o.n      = static_cast<int>(n);
+        o.convex = ::nano::convex(c);
+        o.smooth = true;
+        o.mu     = ::nano::strong_convexity(c);
+        o.extra  = 64.0 * static_cast<double>(n * n);
+        const constraint_t* pc = &c;
+        o.eval = [pc](const vec& x, vec* g)
+        {
+            vector_t X(static_cast<tensor_size_t>(x.size()));
+            for (tensor_size_t i = 0; i < X.size(); ++i) X(i) = x[static_cast<size_t>(i)];
+            if (g)
+            {
+                vector_t G(X.size());
+                const auto fx = ::nano::vgrad(*pc, X, G);
+                *g            = tovec(G);
+                return fx;
+            }
+            return ::nano::vgrad(*pc, X);
+        };
+        for (int s = 0; s < 3; ++s)
+        {
+            const auto x = dyadic_point(rng, static_cast<int>(n), 4.0, 0.125);
+            const auto z = dyadic_point(rng, static_cast<int>(n), 4.0, 0.125);
+            double     rem = 0;
+            for (tensor_size_t i = 0; i < n; ++i)
+                for (tensor_size_t j = 0; j < n; ++j) rem += 0.5 * (z[static_cast<size_t>(i)] - x[static_cast<size_t>(i)]) * P(i, j) * (z[static_cast<size_t>(j)] - x[static_cast<size_t>(j)]);
+            check_expansion(o, x, z, rem, "1/2 d'Pd");
+            // the declared coefficient must bound the Rayleigh quotient of THIS direction from below (clause `<->` of the theorem)
+            double dd = 0;
+            for (size_t i = 0; i < x.size(); ++i) dd += (z[i] - x[i]) * (z[i] - x[i]);
+            if (o.convex && !(2.0 * rem >= o.mu * dd - 1e-9 * (1.0 + std::fabs(rem) + dd * std::fabs(o.mu))))
+                fail("strong-convexity", o.name, o.family, "Rayleigh quotient below the declared coefficient: d'Pd=" + vh::hexf(2.0 * rem) + " mu=" + vh::hexf(o.mu) + " |d|^2=" + vh::hexf(dd) + " x=[" + fl(x) + "] z=[" + fl(z) + "]");
+            vec        g(x.size());
+            const auto fx = o.eval(x, &g);
+            if (s == 0) out(std::string("CQ ") + (eq ? "eq " : "ineq ") + std::to_string(n) + " | " + fm(P) + " | " + fl(tovec(q)) + " | " + vh::hexf(r) + " | " + fl(x) + " = " + vh::hexf(fx) + " | " + fl(g));
+        }
+    }
+}
+
+// class-NLL: gradient == soft-max - indicator and value == log-sum-exp - posum within eps, computed independently (long double)
+void ext_classnll(vh::rng_t& rng)
+{
+    const auto loss = loss_t::all().get("s-classnll");
+    if (!loss) return;
+    for (int rep = 0; rep < (g_thorough ? 400 : 100); ++rep)
+    {
+        const int k = static_cast<int>(rng.range(1, 6));
+        const auto t = draw_target(rng, rep % 3 == 0 ? lkind::mclass : lkind::sclass, k, static_cast<int>(rng.range(0, 11)));
+        const auto o = draw_output(rng, t, lkind::sclass, static_cast<int>(rng.range(0, 7)));
+        const auto r = loss_eval(*loss, t, o);
+        long double m = o[0], S = 0, pos = 0;
+        for (auto v : o) m = std::max<long double>(m, v);
+        for (auto v : o) S += std::exp(static_cast<long double>(v) - m);
+        for (int i = 0; i < k; ++i) pos += t[static_cast<size_t>(i)] > 0 ? o[static_cast<size_t>(i)] : 0.0;
+        const long double ideal = std::log(S) + m - pos;
+        const auto        sc    = 1.0 + std::fabs(static_cast<double>(m)) + std::fabs(static_cast<double>(pos));
+        bool ok = static_cast<long double>(r.value) >= ideal - 64 * EPS * sc && static_cast<long double>(r.value) <= ideal + EPS + 64 * EPS * sc;
+        std::string bad = ok ? "" : "value outside [lse - posum, lse - posum + eps]";
+        for (int i = 0; i < k && ok; ++i)
+        {
+            const long double want = std::exp(static_cast<long double>(o[static_cast<size_t>(i)]) - m) / S - (t[static_cast<size_t>(i)] > 0 ? 1.0L : 0.0L);
+            if (std::fabs(static_cast<double>(want - r.grad[static_cast<size_t>(i)])) > 64 * EPS)
+            {
+                ok  = false;
+                bad = "gradient[" + std::to_string(i) + "] != softmax - indicator";
+            }
+        }
+        ++g_loss_checks;
+        if (!ok) fail("classnll-softmax", "loss:s-classnll t=[" + fl(t) + "]", "loss:s-classnll", bad + " o=[" + fl(o) + "] value=" + vh::hexf(r.value) + " g=[" + fl(r.grad) + "]");
+    }
+}
+
+void ext_ml(vh::rng_t& rng)
+{
+    // algebraic kernels only (the model recomputes them exactly); class-NLL and the transcendental kernels are covered by the theorems through
+    // `loss_convex_on` and by the direct oracles of stage D
+    const char* ids[] = {"mse", "mae", "pinball", "s-hinge", "m-hinge", "s-squared-hinge", "m-squared-hinge"};
+    for (const char* id : ids)
+    {
+        const auto loss = loss_t::all().get(id);
+        if (!loss) continue;
+        const auto kind = kind_of(id);
+        for (int rep = 0; rep < (g_thorough ? 6 : 2); ++rep)
+        {
+            auto       d   = make_data(rng, kind, 1U);
+            const auto all = arange(0, d.n);
+            for (int reg = 0; reg < 4; ++reg)
+            {
+                // also zero and negative factors: the guards `> 0.0` of the source
+                const auto l1 = (reg & 1) ? std::ldexp(static_cast<double>(rng.range(1, 64)), -4) : (rep % 2 ? -0.5 : 0.0);
+                const auto l2 = (reg & 2) ? std::ldexp(static_cast<double>(rng.range(1, 64)), -4) : 0.0;
+                auto       it = flatten_iterator_t{*d.dataset, all};
+                it.batch(static_cast<tensor_size_t>(rng.range(2, 9)));
+                it.scaling(scaling_type::none);
+                const auto f = linear::function_t{it, *loss, l1, l2};
+                auto       o = wrap_function(f, std::string("ml:linear(") + id + ")", std::string("ml:linear-ext(loss=") + id + ")", false);
+                for (int s = 0; s < 2; ++s)
+                {
+                    const auto x = dyadic_point(rng, o.n, 2.0, 0.125);
+                    vec        g(x.size());
+                    const auto fx = o.eval(x, &g);
+                    out(std::string("LM ") + id + " " + vh::hexf(l1) + " " + vh::hexf(l2) + " " + std::to_string(d.isize) + " " + std::to_string(d.tsize) + " | " + frows(d.inputs) +
+                        " | " + frows(d.targets) + " | " + fl(x) + " = " + vh::hexf(fx) + " | " + fl(g));
+                }
+            }
+            {
+                auto it = targets_iterator_t{*d.dataset, all};
+                it.batch(static_cast<tensor_size_t>(rng.range(2, 9)));
+                it.scaling(scaling_type::none);
+                const auto fb = gboost::bias_function_t{it, *loss};
+                auto       ob = wrap_function(fb, "ml:gboost-bias", "ml:gboost-bias-ext", false);
+                const auto xb = dyadic_point(rng, ob.n, 2.0, 0.125);
+                vec        gb(xb.size());
+                const auto fxb = ob.eval(xb, &gb);
+                out(std::string("GB ") + id + " " + std::to_string(d.tsize) + " | " + frows(d.targets) + " | " + fl(xb) + " = " + vh::hexf(fxb) + " | " + fl(gb));
+
+                const auto groups = static_cast<tensor_size_t>(rng.range(1, 3));
+                cluster_t  cluster(d.n, groups);
+                vec        grp(static_cast<size_t>(d.n));
+                for (tensor_size_t s = 0; s < d.n; ++s)
+                {
+                    const auto gi = rng.range(-1, groups - 1);
+                    if (gi >= 0) cluster.assign(s, gi);
+                    grp[static_cast<size_t>(s)] = static_cast<double>(gi);
+                }
+                tensor4d_t       so(cat_dims(d.n, d.dataset->target_dims())), wo(cat_dims(d.n, d.dataset->target_dims()));
+                std::vector<vec> sor, wor;
+                for (tensor_size_t s = 0; s < d.n; ++s)
+                {
+                    vec a(static_cast<size_t>(d.tsize)), b(static_cast<size_t>(d.tsize));
+                    for (tensor_size_t k = 0; k < d.tsize; ++k)
+                    {
+                        a[static_cast<size_t>(k)] = so(s * d.tsize + k) = std::round((2.0 * rng.unit() - 1.0) * 32.0) / 32.0;
+                        b[static_cast<size_t>(k)] = wo(s * d.tsize + k) = std::round((2.0 * rng.unit() - 1.0) * 32.0) / 32.0;
+                    }
+                    sor.push_back(a);
+                    wor.push_back(b);
+                }
+                const auto fs = gboost::scale_function_t{it, *loss, cluster, so, wo};
+                auto       os = wrap_function(fs, "ml:gboost-scale", "ml:gboost-scale-ext", false);
+                const auto xs = dyadic_point(rng, os.n, 2.0, 0.125);
+                vec        gs(xs.size());
+                const auto fxs = os.eval(xs, &gs);
+                out(std::string("GS ") + id + " " + std::to_string(d.tsize) + " " + std::to_string(groups) + " | " + fl(grp) + " | " + frows(sor) + " | " + frows(wor) + " | " +
+                    frows(d.targets) + " | " + fl(xs) + " = " + vh::hexf(fxs) + " | " + fl(gs));
+            }
+        }
+    }
+}
+
+// elastic-net objectives: the synthetic data re-drawn as the constructor draws it (17 summands, 1 output, max(dims, 2) inputs)
+void ext_enet(vh::rng_t& rng)
+{
+    for (const auto& id : function_t::all().ids())
+    {
+        const auto plus = id.find('+');
+        if (plus == std::string::npos) continue;
+        const auto lname = id.substr(0, plus);
+        if (lname != "mse" && lname != "mae" && lname != "hinge") continue; // algebraic kernels (logistic / cauchy: theorems + direct oracles)
+        double a1 = 0, a2 = 0;
+        const auto br = id.find('[');
+        const auto args = id.substr(br + 1, id.size() - br - 2);
+        if (id.find("ridge") != std::string::npos) a2 = std::strtod(args.c_str(), nullptr);
+        else if (id.find("lasso") != std::string::npos) a1 = std::strtod(args.c_str(), nullptr);
+        else
+        {
+            a1 = std::strtod(args.c_str(), nullptr);
+            a2 = std::strtod(args.substr(args.find(',') + 1).c_str(), nullptr);
+        }
+        for (const tensor_size_t d : {2, 3})
+        {
+            const auto f = function_t::all().get(id)->make(d, 17);
+            if (!f || f->size() != d) continue;
+            auto o = wrap_function(*f, "fn:" + id, "fn:" + id + "[" + std::to_string(d) + "D,17]", true);
+            std::vector<vec> inputs, targets;
+            vec              bias;
+            if (lname == "hinge")
+            {
+                const synthetic_sclass_t syn(17, 1, d);
+                for (tensor_size_t i = 0; i < 17; ++i)
+                {
+                    vec u(static_cast<size_t>(d));
+                    for (tensor_size_t j = 0; j < d; ++j) u[static_cast<size_t>(j)] = syn.inputs()(i, j);
+                    inputs.push_back(u);
+                    targets.push_back({syn.targets()(i, 0)});
+                }
+                bias = tovec(syn.bopt());
+            }
+            else
+            {
+                const synthetic_scalar_t syn(17, 1, d);
+                for (tensor_size_t i = 0; i < 17; ++i)
+                {
+                    vec u(static_cast<size_t>(d));
+                    for (tensor_size_t j = 0; j < d; ++j) u[static_cast<size_t>(j)] = syn.inputs()(i, j);
+                    inputs.push_back(u);
+                    targets.push_back({syn.targets()(i, 0)});
+                }
+                bias = tovec(syn.bopt());
+            }
+            for (int s = 0; s < 2; ++s)
+            {
+                auto x = dyadic_point(rng, static_cast<int>(d), 4.0, 0.25);
+                if (s == 1) x[static_cast<size_t>(rng.range(0, d - 1))] = 0.0; // the kink of the l1 term: sign(0) = 0
+                vec        g(x.size());
+                const auto fx = o.eval(x, &g);
+                out("EN " + lname + " " + vh::hexf(a1) + " " + vh::hexf(a2) + " " + std::to_string(d) + " | " + frows(inputs) + " | " + frows(targets) + " | " + fl(bias) + " | " +
+                    fl(x) + " = " + vh::hexf(fx) + " | " + fl(g));
+            }
+        }
+    }
+}
+
+void ext_families(vh::rng_t& rng)
+{
+    ext_functions(rng);
+    ext_constraints(rng);
+    ext_classnll(rng);
+    ext_ml(rng);
+    ext_enet(rng);
+}
 } // namespace
 
 int main(int argc, char** argv)
@@ -1070,6 +1549,14 @@ int main(int argc, char** argv)
     if (only.empty() || only == "fn") function_families(rng);
     if (only.empty() || only == "cons") constraint_families(rng);
     if (only.empty() || only == "ml") ml_families(rng);
+    if (only.empty() || only == "ext")
+    {
+        // own stream: the stages above draw exactly what they drew before the extension existed
+        vh::rng_t seeder2(vh::env_seed() ^ 0xE06E06E06E06ULL);
+        seeder2.next();
+        vh::rng_t rng2(seeder2.next());
+        ext_families(rng2);
+    }
 
     std::string fam, clauses, keys;
     for (const auto& kv : g_family) fam += kv.first + ":" + std::to_string(kv.second) + ",";
